@@ -54,6 +54,9 @@ CHECKS = {
  "C17": ("model_checking", "Bounded-exhaustive enumeration of sources (seeds, all strings of <=k lexemes, all strings of <=4 adversarial byte atoms incl. CR/CRLF/NUL/invalid UTF-8) for four highlighter configurations (highlights+locals; injection plain / include-children / combined) x three recognised-name lists with one reused Highlighter; the event stream is checked for contiguous exact coverage, balanced non-nesting highlights that coincide with leaf nodes, containment of injected highlights in injection content, local references highlighted like their definitions (own scope walk), and the HTML renderer's output against the source under the documented normalisations.",
          "Highlight-to-language attribution needs the full recognised-name list (variant 0). Runs of U+FFFD compared collapsed. One known finding (extra newline).",
          "bounded-exhaustive input enumeration with event-stream invariants and reference scope resolution", "DESIGN.md §2 C17"),
+ "C18": ("model_checking", "Bounded-exhaustive enumeration of sources for a tags language with doc comments, @ignore, local scopes and Unicode identifiers (all strings of <=k lexemes, every placement of 0-4-byte characters before and inside up to three names on one line, classes whose tag completes after the tags inside them, 170-190-byte lines with a multi-byte character across byte 180, CRLF), one reused TagsContext; the emitted tag set and every field of every tag (ranges, trimmed line range, span, UTF-16 columns, docs, kind) are recomputed from the source bytes and our own tree evaluation.",
+         "Locality: a name is local if an enclosing scope holds an earlier definition with the same text. A panic inside the code under test is reported as a violation.",
+         "bounded-exhaustive input enumeration with per-tag recomputation from the source bytes", "DESIGN.md §2 C18"),
 }
 REASON_WIP = "check not built yet (work in progress; see DESIGN.md build order)"
 def main():
